@@ -120,14 +120,24 @@ fn inner_file_handler(
         .with_bytes(contents)
 }
 
+/// Checks whether the request comes from, or was forwarded through or on behalf of, a blacklisted address.
+///
+/// The origin address is taken from the client-controlled `X-Forwarded-For` header when it is present, in which
+/// case the address of the peer itself is the last of the proxies, so the proxies must be checked as well.
+pub(crate) fn is_blacklisted(request: &Request, state: &AppState) -> bool {
+    let list = &state.config.blacklist.list;
+
+    list.contains(&request.address.origin_addr)
+        || request
+            .address
+            .proxies
+            .iter()
+            .any(|proxy| list.contains(proxy))
+}
+
 fn blacklist_check(request: &Request, state: Arc<AppState>) -> Option<Response> {
     // Return error 403 if the address was blacklisted
-    if state
-        .config
-        .blacklist
-        .list
-        .contains(&request.address.origin_addr)
-    {
+    if is_blacklisted(request, &state) {
         state.logger.warn(format!(
             "{}: Blacklisted IP attempted to request {}",
             request.address, request.uri
